@@ -188,7 +188,10 @@ class RCA_Supervised(RCA):
                     ' version 0.6.3 and will be removed in 0.7.0'
                     '', FutureWarning)
       n_chunks = num_chunks
-    self.num_chunks = 'deprecated'  # To avoid no_attribute error
+    # keep the marker object that was passed: clone compares constructor
+    # parameters by identity, which a pickle round trip does not preserve
+    self.num_chunks = (
+        num_chunks if num_chunks == 'deprecated' else 'deprecated')
     self.n_chunks = n_chunks
     self.chunk_size = chunk_size
     self.random_state = random_state
